@@ -23,8 +23,9 @@ var (
 	typeSpellings = []string{"c", "g", "ms", "h", "s"}
 	badTypes      = []string{"", "x", "m", "mx", "cs", "C", "sm", "hh", "gc", "k", "|", "ms "}
 	values        = []string{"1", "0", "-1", "1.5", "-0.25", "1e3", "3.14159", "+2", "100000", "0x1p3", "1_0", ".5", "5.",
-		"inf", "+Inf", "-inf", "nan", "NaN", "1e999", "-1e999", "1e-999", "", "abc", " 1", "1 ", "1:2", "1,2", "--1", "1e", "0x", "٣", "user42", "a:b"}
-	rates    = []string{"0.5", "1", "0.1", "0.25", "1e-3", "2", "0", "-0", "-1", "-0.5", "nan", "inf", "-inf", "+Inf", "1e999", "", "abc", "0.5x", " 0.5", "0x1p-1", "1e-400"}
+		"inf", "+Inf", "-inf", "nan", "NaN", "1e999", "-1e999", "1e-999", "", "abc", " 1", "1 ", "1:2", "1,2", "--1", "1e", "0x", "٣", "user42", "a:b",
+		"-", "+", ".", "e", "-.", "+.", "+e", "-e1", "+-1", "E5", "_", "1_"}
+	rates    = []string{"0.5", "1", "0.1", "0.25", "1e-3", "2", "0", "-0", "-1", "-0.5", "nan", "inf", "-inf", "+Inf", "1e999", "", "abc", "0.5x", " 0.5", "0x1p-1", "1e-400", "-", "+", ".", "e", "+."}
 	tagPool  = []string{"", "a", "b:c", "env:prod", "k:v:w", "host:h1", "x y", "é", "t#1", "@", "#", "a=b", "0", "::", "-", "long_tag_value.with.dots"}
 	others   = []string{"c:container", "T1656581400", "x", "e:1", "zzz", "c", "d:1", " ", "\\n", "a,b"}
 	nss      = []string{"", "", "", "ns", "a.b", "N/s", "é"}
